@@ -1,3 +1,4 @@
+import Hcl.Proofs.YoSpec
 import Hcl.Model.Yo
 import Hcl.Spec.YoFormat
 open Rust
@@ -86,5 +87,74 @@ theorem C15_load_no_panic : ∀ (lines : List Bytes) (m : Mem) (loc : Nat) (foun
 /-- an empty file is refused -/
 theorem C15_empty_refused : (match load [] with | .emptyFile => True | _ => False) := by
   simp [load, loadLines]
+
+end Yo
+
+/-! ### exactly the listed bytes at the listed addresses -/
+
+namespace Yo
+
+/-- what a data line denotes: byte `k` of the line at address `addr + k`, all other addresses untouched -/
+theorem overlay_spec (f : Nat → Nat) : ∀ (bs : List Nat) (addr a : Nat),
+    Spec.overlay f addr bs a = if addr ≤ a ∧ a < addr + bs.length then bs.getD (a - addr) 0 else f a := by
+  intro bs
+  induction bs generalizing f with
+  | nil =>
+    intro addr a
+    simp only [Spec.overlay, List.length_nil, Nat.add_zero]
+    have : ¬ (addr ≤ a ∧ a < addr) := by omega
+    simp [this]
+  | cons b rest ih =>
+    intro addr a
+    simp only [Spec.overlay, List.length_cons]
+    rw [ih]
+    by_cases h1 : addr + 1 ≤ a ∧ a < addr + 1 + rest.length
+    · have h2 : addr ≤ a ∧ a < addr + (rest.length + 1) := by omega
+      simp only [h1, h2, and_self, if_true]
+      have : a - addr = (a - (addr + 1)) + 1 := by omega
+      rw [this]; simp
+    · simp only [h1, if_false]
+      by_cases h3 : a = addr
+      · subst h3
+        have h2 : a ≤ a ∧ a < a + (rest.length + 1) := by omega
+        simp [h2]
+      · have h2 : ¬ (addr ≤ a ∧ a < addr + (rest.length + 1)) := by omega
+        simp [h2, h3]
+
+/-- **C15, one line**: a valid-UTF-8 line is loaded exactly as the listing format says: a data line stores its bytes
+    at consecutive addresses from its address, a line without `|` or a comment line changes nothing, anything else
+    is refused -/
+theorem C15_line (m : Mem) (loc : Nat) (line : Bytes) (hv : validUtf8 line = true) :
+    loadLine m loc line = match Spec.classify line with
+      | .data addr bs => .ok (storeBytes m addr bs) (addr + bs.length)
+      | .nothing => .ok m loc
+      | .malformed => .err := loadLine_spec m loc line hv
+
+/-- **C15, whole file**: for every list of valid-UTF-8 lines, the loader refuses exactly when the format refuses
+    (a malformed line) or there is no line at all; otherwise every address holds what the listing says (later
+    lines over earlier ones, 0 where nothing is listed) -/
+theorem C15_image (lines : List Bytes) (hv : ∀ l ∈ lines, validUtf8 l = true) :
+    match Spec.image lines (fun _ => 0) [] with
+    | some (f, _) =>
+        if !lines.isEmpty then ∃ m', load lines = .ok m' ∧ ∀ a, m'.get a = f a
+        else load lines = .emptyFile
+    | none => ∃ l, load lines = .unparseable l := by
+  have h := loadLines_spec lines [] 0 false [] hv
+  have hget : (fun a => Mem.get [] a) = (fun _ => 0) := by
+    funext a; simp [Mem.get]
+  have hget' : Mem.get [] = (fun _ => 0) := hget
+  rw [hget'] at h
+  cases hi : Spec.image lines (fun _ => 0) [] with
+  | none =>
+    rw [hi] at h
+    simpa [load] using h
+  | some r =>
+    rw [hi] at h
+    simpa [load] using h
+
+/-- lines that are not valid UTF-8 are an I/O error of `BufRead::lines`, never a panic -/
+theorem C15_invalid_utf8 (line : Bytes) (rest : List Bytes) (m : Mem) (loc : Nat) (found : Bool)
+    (h : validUtf8 line = false) : loadLines (line :: rest) m loc found = .ioError := by
+  simp [loadLines, h]
 
 end Yo
